@@ -54,6 +54,8 @@ def configs(tier, seed):
                 # exact: insert t copies of knot j into the vector with multiplicity m - t, then remove them
                 for t in sorted({1, m}):
                     cfgs.append(dict(name=f"exact {tag} knot {j} x{t}", kind="exact", j=j, t=t, rat=False, dim=(i + j) % 2 * 2, **base))
+                    if (i + j + t + seed) % 2 == 0:
+                        cfgs.append(dict(name=f"exact {tag} knot {j} x{t} tolerance=0", kind="exact", j=j, t=t, rat=False, dim=0, tol0=True, **base))
                     if p <= 2 and t == 1:
                         cfgs.append(dict(name=f"exact {tag} knot {j} x{t} rat", kind="exact", j=j, t=t, rat=True, dim=0, **base))
                 for t in sorted({1, m}):
@@ -110,7 +112,10 @@ def body(env, cfg):
         c.knot_insert(list(nodes))
         env.holds("setup: knot_insert produced the full vector", list(c.knotvector) == list(kv.U))
         try:
-            c.knot_remove(list(nodes))
+            if cfg.get("tol0"):
+                c.knot_remove(list(nodes), 0)  # zero deviation is within every tolerance, 0 included
+            else:
+                c.knot_remove(list(nodes))
         except ValueError as e:
             env.fail(f"knot_remove refused knots that are exactly removable ({str(e)[:80]})")
             return
